@@ -301,6 +301,12 @@ fn at_rest(sh: &Shared) -> (bool, u64) {
                 }
             }
         }
+        // `worker_exited` is raised by a thread-local destructor, i.e. slightly BEFORE the OS thread is gone.  A guard
+        // drop that is still running then is not in a stable wait: its rendezvous / send sees the receiver gone at
+        // once and its join() returns as soon as the thread is really gone.  Wait for the explicit "drop returned".
+        if st.worker_exited && (st.dstate == 1 || st.dstate == 2) {
+            return (false, epoch);
+        }
         match st.dstate {
             1 => return (false, epoch),
             2 => match st.dtid {
@@ -331,13 +337,13 @@ fn settle(sh: &Shared, bound: Duration) -> bool {
             good = if r { 1 } else { 0 };
             last = e;
         }
-        if good >= 3 {
+        if good >= 4 {
             return true;
         }
         if Instant::now() > deadline {
             return false;
         }
-        thread::sleep(Duration::from_micros(150));
+        thread::sleep(Duration::from_micros(200));
     }
 }
 
